@@ -69,6 +69,18 @@ def run(ctx, n_override=None):
             ctx.violation({"harness_rc": rc, "stderr": err[-3000:]}, "real reader on shipped files aborted: %s" % err[-400:]); continue
         L_c, L_i, L_m, L_2 = lines(cases), lines(impl), lines(model), lines(impl2)
         stats_all[mode] = json.load(open(stats))
+        st = stats_all[mode]
+        rcmd = "VERIF_SEED=%d python3 bin/check.py C06 --tier %s" % (ctx.seed, ctx.tier)
+        if st.get("odd_file_names_failed"):
+            ctx.report("file-name-round-trip:" + st.get("first_failing_file_name", "?").split(":")[0], {"mode": mode, "failed": st["odd_file_names_failed"], "tested": st["odd_file_names_tested"], "first": st.get("first_failing_file_name"), "replay_cmd": rcmd},
+                       "a table written with write_fits(path) does not come back through read_fits(path) / the path constructor / readsplinefitstable for %d of %d legitimate file names; first: %s" % (st["odd_file_names_failed"], st["odd_file_names_tested"], st.get("first_failing_file_name")))
+        co = st.get("concurrent_outcome")
+        if co is None:
+            ctx.tie_ok = False; ctx.broken.append({"kind": "the concurrent phase of the FITS harness did not run", "mode": mode})
+        elif co != 0:
+            ctx.report("concurrent-write-differs" if co > 0 else "concurrent-write-crash", {"mode": mode, "calls": st.get("concurrent_write_read_calls"), "outcome": co, "replay_cmd": rcmd},
+                       ("%d memory files written (or tables read back) while other threads were serialising const tables differ from what one thread produces alone" % co) if co > 0
+                       else "the process serialising const tables from 4 threads at the same time died (signal %d); each of these calls succeeds alone" % (-co))
         if not (len(L_c) == len(L_m) == len(L_2)) or len(L_i) > len(L_c):
             broken("line counts differ", counts=[len(L_c), len(L_i), len(L_m), len(L_2)]); continue
         cur = None
